@@ -1,4 +1,5 @@
 use super::{Felt, LocalConstMap, ParsingError, Token};
+use crate::StarkField;
 use crate::utils::{collections::*, string::*};
 use core::fmt::Display;
 
@@ -239,6 +240,14 @@ fn parse_operand(
     let parsed_number = value.parse::<u64>();
     // if the parsed value is a number push it on the stack
     if let Ok(parsed_number) = parsed_number {
+        // a literal must be a valid field element; Felt::new() would silently reduce it
+        if parsed_number >= Felt::MODULUS {
+            return Err(ParsingError::invalid_const_value(
+                op,
+                expression,
+                &format!("constant value must be smaller than {}", Felt::MODULUS),
+            ));
+        }
         Ok(Operation::Value(Felt::new(parsed_number)))
     }
     // if it is a name of the constant get its value from the `constants` map
